@@ -73,13 +73,15 @@ struct TickOut {
     accepted: Vec<(WarpId, NodeId)>,
     post: Option<WarpState>,
     patch: Option<WarpTickPatchV1>,
+    /// receipt entries strictly ascending by (real scope hash, rule id)
+    canonical: bool,
 }
 
 fn run_tick(state: &WarpState, root: NodeKey, kind: SchedulerKind, workers: usize, cands: &[Cand]) -> TickOut {
     let mut engine = match EngineBuilder::from_state(state.clone(), root).scheduler(kind).workers(workers).build() {
         Ok(e) => e,
         Err(e) => {
-            return TickOut { applied: vec![], text: format!("err build:{}", class(&format!("{e:?}"))), digests: String::new(), accepted: vec![], post: None, patch: None }
+            return TickOut { applied: vec![], text: format!("err build:{}", class(&format!("{e:?}"))), digests: String::new(), accepted: vec![], post: None, patch: None, canonical: true }
         }
     };
     engine.register_rule(interp::rule(RULE_A)).unwrap();
@@ -91,7 +93,7 @@ fn run_tick(state: &WarpState, root: NodeKey, kind: SchedulerKind, workers: usiz
             Ok(ApplyResult::Applied) => applied.push(true),
             Ok(ApplyResult::NoMatch) => applied.push(false),
             Err(e) => {
-                return TickOut { applied, text: format!("err apply:{}", class(&format!("{e:?}"))), digests: String::new(), accepted: vec![], post: None, patch: None }
+                return TickOut { applied, text: format!("err apply:{}", class(&format!("{e:?}"))), digests: String::new(), accepted: vec![], post: None, patch: None, canonical: true }
             }
         }
     }
@@ -107,12 +109,14 @@ fn run_tick(state: &WarpState, root: NodeKey, kind: SchedulerKind, workers: usiz
             } else {
                 "other".to_string()
             };
-            TickOut { applied, text: format!("panic {what}"), digests: String::new(), accepted: vec![], post: None, patch: None }
+            TickOut { applied, text: format!("panic {what}"), digests: String::new(), accepted: vec![], post: None, patch: None, canonical: true }
         }
-        Ok(Err(e)) => TickOut { applied, text: format!("err commit:{}", class(&format!("{e:?}"))), digests: String::new(), accepted: vec![], post: None, patch: None },
+        Ok(Err(e)) => TickOut { applied, text: format!("err commit:{}", class(&format!("{e:?}"))), digests: String::new(), accepted: vec![], post: None, patch: None, canonical: true },
         Ok(Ok((snap, receipt, patch))) => {
             let mut s = format!("receipt {}", receipt.entries().len());
             let mut accepted = Vec::new();
+            let keys: Vec<([u8; 32], [u8; 32])> = receipt.entries().iter().map(|e| (scope_hash(&e.rule_id, &e.scope), e.rule_id)).collect();
+            let canonical = keys.windows(2).all(|w| w[0] < w[1]);
             for (i, e) in receipt.entries().iter().enumerate() {
                 let rule = if e.rule_id == interp::rule_id(RULE_A) { "a" } else { "b" };
                 match e.disposition {
@@ -129,10 +133,21 @@ fn run_tick(state: &WarpState, root: NodeKey, kind: SchedulerKind, workers: usiz
             let post = engine.state().clone();
             s.push_str(&format!(" ; patch {}", ops_str(patch.ops())));
             s.push_str(&format!(" ; post {}", state_str(&post)));
-            // digests: compared across orders by the oracle; kept out of the model-facing text until the
-            // pre-image models (C05/C06) are wired into the C01 model
-            let digests = format!(" ; root {} ; patchdigest {} ; commit {} ; receiptdigest {}", hex(&snap.state_root), hex(&patch.digest()), hex(&snap.hash), hex(&receipt.digest()));
-            TickOut { applied, text: s, digests, accepted, post: Some(post), patch: Some(patch) }
+            // digests: the model emits their PRE-IMAGES (Model/TickDigest.lean), `hashx` evaluates them
+            let digests = format!(
+                " ; policy {} ; root {} ; patchdigest {} ; commit {} ; receiptdigest {} ; plan {} ; rewrites {}",
+                snap.policy_id,
+                hex(&snap.state_root),
+                hex(&patch.digest()),
+                hex(&snap.hash),
+                hex(&receipt.digest()),
+                hex(&snap.plan_digest),
+                hex(&snap.rewrites_digest)
+            );
+            if snap.decision_digest != receipt.digest() || snap.patch_digest != patch.digest() || !snap.parents.is_empty() {
+                return TickOut { applied, text: "err snapshot-fields-inconsistent".into(), digests: String::new(), accepted: vec![], post: None, patch: None, canonical: true };
+            }
+            TickOut { applied, text: s, digests, accepted, post: Some(post), patch: Some(patch), canonical }
         }
     }
 }
@@ -148,7 +163,7 @@ fn imp_tick(t: &mut Toks) -> Result<String, String> {
     let c = parse_case(t)?;
     let out = run_tick(&c.state, c.root, c.kind, c.workers, &c.cands);
     let ap: Vec<&str> = out.applied.iter().map(|b| if *b { "M" } else { "N" }).collect();
-    Ok(format!("apply {} ; {}", ap.join(""), out.text))
+    Ok(format!("apply {} ; {}{}", ap.join(""), out.text, out.digests))
 }
 
 fn oracle_tick(t: &mut Toks, tier: Tier) -> Result<OracleOut, String> {
@@ -164,40 +179,99 @@ fn oracle_tick(t: &mut Toks, tier: Tier) -> Result<OracleOut, String> {
     }
     let mut rng = Rng::new(c.cands.len() as u64 * 31 + 5);
     let rounds = if tier == Tier::Thorough { 12 } else { 5 };
-    // (1) order / duplication / scheduler kind / worker count independence
+    let key = |x: &Cand| (x.shash, x.rule);
+    if !base.canonical {
+        o.fails.push(("C01.receipt-order-not-canonical".into(), format!("receipt entries are not in ascending (scope hash, rule) order: [{}]", clip(&base.text))));
+    }
+    // (1) order / duplication / scheduler kind / worker count independence.
+    // Rounds 0..2 are deterministic extremes of the arrival order (canonical, anti-canonical, the given
+    // list reversed); the others are random shuffles with repeats, the other scheduler, other worker counts.
     for r in 0..rounds {
         let mut v = set.clone();
-        rng.shuffle(&mut v);
-        if r % 2 == 1 && !v.is_empty() {
-            // duplicate some candidates at random positions
-            for _ in 0..rng.range(1, 3) {
-                let x = v[rng.below(v.len() as u64) as usize].clone();
-                let pos = rng.below(v.len() as u64 + 1) as usize;
-                v.insert(pos, x);
+        let mut switched = false;
+        let mut workers = [1usize, 2, 3, 8, 32][r % 5];
+        let label;
+        match r {
+            0 => {
+                v.sort_by(|a, b| key(a).cmp(&key(b)));
+                workers = c.workers;
+                label = "order";
+            }
+            1 => {
+                v.sort_by(|a, b| key(b).cmp(&key(a)));
+                workers = c.workers;
+                label = "order";
+            }
+            2 => {
+                v = c.cands.clone();
+                v.reverse();
+                workers = c.workers;
+                label = "order";
+            }
+            _ => {
+                rng.shuffle(&mut v);
+                if r % 2 == 1 && !v.is_empty() {
+                    // duplicate some candidates at random positions
+                    for _ in 0..rng.range(1, 3) {
+                        let x = v[rng.below(v.len() as u64) as usize].clone();
+                        let pos = rng.below(v.len() as u64 + 1) as usize;
+                        v.insert(pos, x);
+                    }
+                }
+                switched = r % 3 == 0;
+                label = if switched { "scheduler-kind" } else if workers != c.workers { "order-or-workers" } else { "order" };
             }
         }
-        let switched = r % 3 == 2;
         let kind = if switched { other(c.kind) } else { c.kind };
-        let workers = [1usize, 2, 3, 8, 32][r % 5];
         let out = run_tick(&c.state, c.root, kind, workers, &v);
         if out.text != base.text || out.digests != base.digests {
-            let what = if switched { "scheduler-kind" } else if workers != c.workers { "order-or-workers" } else { "order" };
+            let what = label;
             o.fails.push((format!("C01.outcome-depends-on.{what}"), format!("same candidate set, different enqueue order/duplication ({what}): [{}] vs [{}]", clip(&base.text), clip(&out.text))));
             break;
         }
     }
     // (2) post = pre + effects of accepted rewrites, each computed against the PRE state; nothing else
     if let (Some(post), Some(patch)) = (&base.post, &base.patch) {
-        let mut ops = Vec::new();
+        let mut deltas: Vec<Vec<warp_core::WarpOp>> = Vec::new();
         for (w, scope) in &base.accepted {
             if let Some(store) = c.state.store(w) {
                 let view = GraphView::new(store);
                 if let Some(warp_core::AttachmentValue::Atom(a)) = view.node_attachment(scope) {
                     if let Ok(p) = interp::parse_program(std::str::from_utf8(&a.bytes).unwrap_or("")) {
-                        ops.extend(interp::eval(&view, &p));
+                        deltas.push(interp::eval(&view, &p));
                     }
                 }
             }
+        }
+        let ops: Vec<warp_core::WarpOp> = deltas.iter().flatten().cloned().collect();
+        // (2b) tick_serial_equiv on the real code: the accepted rewrites' ops (each computed against the
+        // PRE-state) applied one rewrite after another - forward, reversed and in a shuffled order - reach
+        // the tick's post-state whenever every step applies
+        if deltas.len() >= 2 && deltas.len() <= 64 {
+            let mut orders: Vec<Vec<usize>> = vec![(0..deltas.len()).collect(), (0..deltas.len()).rev().collect()];
+            let mut sh: Vec<usize> = (0..deltas.len()).collect();
+            rng.shuffle(&mut sh);
+            orders.push(sh);
+            let mut serial_ok = 0;
+            for ord in &orders {
+                let mut st = c.state.clone();
+                let mut ok = true;
+                for &k in ord {
+                    let one = WarpTickPatchV1::new(0, [0u8; 32], warp_core::TickCommitStatus::Committed, vec![], vec![], deltas[k].clone());
+                    if one.apply_to_state(&mut st).is_err() {
+                        ok = false;
+                        break;
+                    }
+                }
+                if ok {
+                    serial_ok += 1;
+                    if state_str(&st) != state_str(post) {
+                        o.fails.push(("C01.serial-application-differs".into(), format!("accepted rewrites applied one after another (order {ord:?}) reach a state different from the tick's post-state: [{}] vs [{}]", clip(&state_str(&st)), clip(&state_str(post)))));
+                        break;
+                    }
+                }
+            }
+            o.tags.push(format!("serial-orders-ok={serial_ok}"));
         }
         let canon = WarpTickPatchV1::new(0, [0u8; 32], warp_core::TickCommitStatus::Committed, vec![], vec![], ops);
         let mut expect = c.state.clone();
@@ -230,6 +304,19 @@ fn oracle_tick(t: &mut Toks, tier: Tier) -> Result<OracleOut, String> {
     }
     if set.len() > 1024 {
         o.tags.push("radix-path".into());
+    }
+    // longest scope-hash prefix shared by two distinct candidates of this tick (adversarial keys)
+    {
+        let mut hs: Vec<[u8; 32]> = set.iter().map(|x| x.shash).collect();
+        hs.sort_unstable();
+        hs.dedup();
+        let m = hs.windows(2).map(|w| lcp(&w[0], &w[1])).max().unwrap_or(0);
+        if m >= 2 {
+            o.tags.push(format!("shared-hash-prefix={}{}", m.min(6), if m >= 6 { "+" } else { "" }));
+        }
+        if m >= 4 && set.len() > 1024 {
+            o.tags.push("radix-path-with-4-byte-prefix-collision".into());
+        }
     }
     if c.state_warps() > 1 {
         o.tags.push("multi-instance".into());
@@ -289,7 +376,7 @@ fn gen_program(rng: &mut Rng, w: &GWarp) -> String {
     // mostly existing ids, sometimes fresh / missing ones
     let node = |rng: &mut Rng| if !nkeys.is_empty() && rng.chance(5, 6) { *rng.pick(&nkeys) } else { rng.range(1, 7) };
     let edge = |rng: &mut Rng| if !ekeys.is_empty() && rng.chance(5, 6) { *rng.pick(&ekeys) } else { 0x20 + rng.range(1, 5) };
-    let n_instr = rng.range(1, 3);
+    let n_instr = if rng.chance(1, 6) { rng.range(3, 5) } else { rng.range(1, 3) };
     let used: std::cell::RefCell<Vec<String>> = std::cell::RefCell::new(Vec::new());
     // writes of an op (text) are recorded while generating it; one op per sort key inside a program
     let gen_write_op = |rng: &mut Rng, nw: &mut Vec<u64>, ew: &mut Vec<u64>, aw: &mut Vec<(bool, u64)>| -> String {
@@ -420,22 +507,317 @@ fn gen_program(rng: &mut Rng, w: &GWarp) -> String {
             }
         }
     }
+    // the program's own panic (no footprint violation besides it): rare
+    if rng.chance(1, 40) {
+        let pos = rng.below(body.len() as u64 + 1) as usize;
+        body.insert(pos, "PANIC".to_string());
+    }
     format!("P {} {} {}", interp::fp_text(&nr, &nw, &er, &ew, &ar, &aw), body.len(), body.join(" "))
+}
+
+// ------------------------------------------------------------------ adversarial scheduler keys
+//
+// Scope hashes reachable through `Engine::apply_in_warp` are BLAKE3 outputs; candidates whose hashes
+// share a long prefix (the inputs on which a digit-/prefix-based drain order can go wrong) only occur
+// by search. `grind` is a birthday search with the REAL `scope_hash` over scope-node ids
+// `base .. base+n` of warp 0xA1 under both rules: it returns groups (pairs / triples) of candidates
+// whose hashes agree on >= 2, 3, 4, (5 ...) leading bytes. Deterministic in `base` (derived from the
+// stream's seed), computed once per `gen` call.
+
+#[derive(Clone, Debug)]
+struct GCand {
+    rule: char,
+    scope: u64,
+    shash: [u8; 32],
+}
+
+/// groups by number of shared leading bytes (index = shared bytes, clipped to 6); members ascending
+struct Ground {
+    by_len: Vec<Vec<Vec<GCand>>>,
+    next: Vec<usize>,
+}
+
+fn lcp(a: &[u8; 32], b: &[u8; 32]) -> usize {
+    a.iter().zip(b.iter()).take_while(|(x, y)| x == y).count()
+}
+
+const ADV_WARP: u64 = 0xA1;
+
+fn grind(base: u64, n: u64) -> Ground {
+    let w = WarpId(small_id(ADV_WARP));
+    let rid = [interp::rule_id(RULE_A), interp::rule_id(RULE_B)];
+    // (leading 8 hash bytes, index*2 + rule)
+    let mut v: Vec<(u64, u64)> = Vec::with_capacity(2 * n as usize);
+    for i in 0..n {
+        let key = NodeKey { warp_id: w, local_id: NodeId(small_id(base + i)) };
+        for (r, id) in rid.iter().enumerate() {
+            let h = scope_hash(id, &key);
+            v.push((u64::from_be_bytes(h[0..8].try_into().unwrap()), i * 2 + r as u64));
+        }
+    }
+    v.sort_unstable();
+    let full = |x: &(u64, u64)| -> GCand {
+        let (i, r) = (x.1 / 2, (x.1 % 2) as usize);
+        let shash = scope_hash(&rid[r], &NodeKey { warp_id: w, local_id: NodeId(small_id(base + i)) });
+        GCand { rule: if r == 0 { 'a' } else { 'b' }, scope: base + i, shash }
+    };
+    let shared = |a: u64, b: u64| -> usize { ((a ^ b).leading_zeros() / 8) as usize };
+    let mut by_len: Vec<Vec<Vec<GCand>>> = vec![Vec::new(); 7];
+    let mut used = vec![false; v.len()];
+    // longest prefixes first, triples before pairs, never reusing a member
+    for want in (2..=6usize).rev() {
+        for size in [3usize, 2] {
+            let cap = if want >= 4 { usize::MAX } else { 64 };
+            let mut k = 0;
+            while k + size <= v.len() && by_len[want].len() < cap {
+                let sh = shared(v[k].0, v[k + size - 1].0).min(6);
+                let fresh = (k..k + size).all(|j| !used[j]);
+                // two different candidates on the same scope node (rules a and b) would share the program: skip
+                let distinct_scopes = (k..k + size).all(|j| (k..j).all(|i| v[i].1 / 2 != v[j].1 / 2));
+                if sh == want && fresh && distinct_scopes {
+                    let mut g: Vec<GCand> = (k..k + size).map(|j| full(&v[j])).collect();
+                    g.sort_by(|a, b| (a.shash, a.rule).cmp(&(b.shash, b.rule)));
+                    let real = lcp(&g[0].shash, &g[size - 1].shash).min(6);
+                    for j in k..k + size {
+                        used[j] = true;
+                    }
+                    by_len[real].push(g);
+                    k += size;
+                } else {
+                    k += 1;
+                }
+            }
+        }
+    }
+    Ground { by_len, next: vec![0; 7] }
+}
+
+impl Ground {
+    /// next unused group sharing exactly `len` leading bytes (wraps around when exhausted);
+    /// `same_rule` prefers a group whose first two members are candidates of the same rule
+    fn take(&mut self, len: usize, same_rule: bool) -> Option<Vec<GCand>> {
+        let pool = &self.by_len[len];
+        if pool.is_empty() {
+            return None;
+        }
+        let n = pool.len();
+        let start = self.next[len];
+        let mut pick = start % n;
+        if same_rule {
+            for d in 0..n {
+                let g = &pool[(start + d) % n];
+                if g[0].rule == g[1].rule {
+                    pick = (start + d) % n;
+                    break;
+                }
+            }
+        }
+        self.next[len] = pick + 1;
+        Some(pool[pick].clone())
+    }
+}
+
+#[derive(Clone, Copy, PartialEq, Eq, Debug)]
+enum Arrival {
+    /// descending (scope hash, rule): the exact reverse of the canonical drain order
+    Anti,
+    /// ascending, then every grouped candidate enqueued AGAIN in descending order (the last-wins
+    /// re-enqueue refreshes the nonce, so the latest arrival order is anti-canonical)
+    AscThenDupAnti,
+    /// shuffled, reversed halves, random repeats
+    ShuffleDup,
+    /// ascending (control)
+    Canon,
+}
+
+/// One adversarial tick: `total` distinct candidates in warp 0xA1; several groups of candidates with
+/// shared scope-hash prefixes and CONFLICTING footprints (so the accepted member - hence post-state,
+/// root, patch, commit id - is decided by the drain order), the rest pairwise independent fillers.
+fn gen_adversarial(rng: &mut Rng, ground: &mut Ground, total: u64, kind: &str, arrival: Arrival, lens: &[usize]) -> String {
+    let children = rng.chance(1, 3);
+    let mut st = gen_state(rng, 5, 4, children);
+    let wid = ADV_WARP;
+    let mut cands: Vec<GCand> = Vec::new();
+    let mut grouped: Vec<GCand> = Vec::new();
+    let mut progs: Vec<(u64, String)> = Vec::new();
+    for (gi, len) in lens.iter().enumerate() {
+        if cands.len() as u64 + 2 > total {
+            break;
+        }
+        let Some(g) = ground.take(*len, gi % 2 == 0) else { continue };
+        if g.iter().any(|m| cands.iter().any(|c| c.scope == m.scope)) {
+            continue; // the same scope node under the other rule is already in this tick
+        }
+        let g: Vec<GCand> = g.into_iter().take((total - cands.len() as u64) as usize).collect();
+        let gi = gi as u64;
+        let t = 0x700 + gi; // target node of the group (exists, carries an attachment)
+        {
+            let w = st.warps.get_mut(&wid).unwrap();
+            w.nodes.insert(t, 0x10);
+            w.natts.insert(t, GAtt::Atom(0x70, vec![0xEE, gi as u8]));
+        }
+        let ckind = rng.below(6);
+        let reader = rng.below(g.len() as u64) as usize;
+        for (j, m) in g.iter().enumerate() {
+            let j64 = j as u64;
+            let prog = match ckind {
+                // attachment write/write on the group's node, member-specific value
+                0 => format!("P {} 1 E SA na {} {} a {} {}", interp::fp_text(&[], &[], &[], &[], &[], &[(false, t)]), sid(wid), sid(t), sid(0x70), hex(&[gi as u8, j as u8])),
+                // node write/write: same fresh node, member-specific type
+                1 => format!("P {} 1 E UN {} {} {}", interp::fp_text(&[], &[0x780 + gi], &[], &[], &[], &[]), sid(wid), sid(0x780 + gi), sid(0x10 + j64)),
+                // read/write: one member copies the PRE-state value of the node onto its own scope node,
+                // the others overwrite the node
+                2 => {
+                    if j == reader {
+                        format!("P {} 1 CP {} {}", interp::fp_text(&[], &[], &[], &[], &[(false, t)], &[(false, m.scope)]), sid(t), sid(m.scope))
+                    } else {
+                        format!("P {} 1 E SA na {} {} a {} {}", interp::fp_text(&[], &[], &[], &[], &[], &[(false, t)]), sid(wid), sid(t), sid(0x70), hex(&[gi as u8, j as u8]))
+                    }
+                }
+                // edge write/write: same fresh edge, member-specific type
+                3 => format!(
+                    "P {} 1 E UE {} {} {} {} {}",
+                    interp::fp_text(&[], &[t], &[], &[0x7C0 + gi], &[], &[]),
+                    sid(wid), sid(0x7C0 + gi), sid(t), sid(t), sid(0x30 + j64)
+                ),
+                // delete vs. attachment write on the same node (node write + alpha write vs alpha write)
+                4 => {
+                    if j == reader {
+                        format!("P {} 1 E DN {} {}", interp::fp_text(&[], &[t], &[], &[], &[], &[(false, t)]), sid(wid), sid(t))
+                    } else {
+                        format!("P {} 1 E SA na {} {} -", interp::fp_text(&[], &[], &[], &[], &[], &[(false, t)]), sid(wid), sid(t))
+                    }
+                }
+                // value computed from the pre-state + a conditional on the node another member rewrites
+                _ => format!(
+                    "P {} 2 IFA {} SA na {} {} a {} {} SA na {} {} - CP {} {}",
+                    interp::fp_text(&[], &[], &[], &[], &[(false, t)], &[(false, t), (false, m.scope)]),
+                    sid(t), sid(wid), sid(t), sid(0x71), hex(&[j as u8]), sid(wid), sid(t), sid(t), sid(m.scope)
+                ),
+            };
+            progs.push((m.scope, prog));
+            cands.push(m.clone());
+            grouped.push(m.clone());
+        }
+    }
+    // fillers: pairwise independent, each writes its own fresh node
+    let mut j = 0u64;
+    let random_fillers = if rng.chance(1, 6) { 3 } else { 0 };
+    while (cands.len() as u64) < total {
+        let scope = 0x1000 + j;
+        let rule = if rng.chance(1, 5) { 'b' } else { 'a' };
+        let prog = if j < random_fillers {
+            gen_program(rng, &st.warps[&wid])
+        } else {
+            format!("P {} 1 E UN {} {} {}", interp::fp_text(&[], &[0x2000 + j], &[], &[], &[], &[]), sid(wid), sid(0x2000 + j), sid(0x11))
+        };
+        let shash = scope_hash(&interp::rule_id(if rule == 'a' { RULE_A } else { RULE_B }), &NodeKey { warp_id: WarpId(small_id(wid)), local_id: NodeId(small_id(scope)) });
+        progs.push((scope, prog));
+        cands.push(GCand { rule, scope, shash });
+        j += 1;
+    }
+    {
+        let w = st.warps.get_mut(&wid).unwrap();
+        for (scope, prog) in progs {
+            w.nodes.insert(scope, 0x98);
+            w.natts.insert(scope, GAtt::Atom(interp::PROG_TY, prog.into_bytes()));
+        }
+    }
+    let key = |c: &GCand| (c.shash, c.rule);
+    let mut order = cands.clone();
+    match arrival {
+        Arrival::Anti => {
+            order.sort_by(|a, b| key(b).cmp(&key(a)));
+        }
+        Arrival::Canon => {
+            order.sort_by(|a, b| key(a).cmp(&key(b)));
+        }
+        Arrival::AscThenDupAnti => {
+            order.sort_by(|a, b| key(a).cmp(&key(b)));
+            let mut again = grouped.clone();
+            again.sort_by(|a, b| key(b).cmp(&key(a)));
+            order.extend(again);
+        }
+        Arrival::ShuffleDup => {
+            rng.shuffle(&mut order);
+            order.reverse();
+            let mut again = grouped.clone();
+            again.sort_by(|a, b| key(b).cmp(&key(a)));
+            for x in again {
+                let pos = rng.below(order.len() as u64 + 1) as usize;
+                order.insert(pos, x.clone());
+                if rng.chance(1, 2) {
+                    order.push(x);
+                }
+            }
+        }
+    }
+    let workers = *rng.pick(&[1u64, 2, 4, 16]);
+    let mut line = format!("{} {} {} {kind} {workers} {}", st.dump(), sid(0xA1), sid(1), order.len());
+    for c in &order {
+        line.push_str(&format!(" {} {} {} {}", c.rule, sid(wid), sid(c.scope), hex(&c.shash)));
+    }
+    line
+}
+
+fn gen_adversarial_set(rng: &mut Rng, tier: Tier) -> Vec<String> {
+    // seed-derived id window; the pool is computed once per `gen` call
+    let base = 0x0001_0000_0000u64 * (1 + rng.below(1 << 16));
+    let n = if tier == Tier::Thorough { 2_500_000 } else { 160_000 };
+    let mut ground = grind(base, n);
+    let mut out = Vec::new();
+    let lens_big: [&[usize]; 4] = [&[4, 4, 3, 3, 2, 4, 3, 2, 5, 6], &[4, 3, 4, 2, 3, 4, 5], &[3, 4, 2, 4, 3, 6], &[4, 4, 4, 3, 2, 5]];
+    // (total, scheduler, arrival)
+    let mut plan: Vec<(u64, &str, Arrival)> = vec![
+        (1030 + rng.below(40), "radix", Arrival::Anti),
+        (1025, "radix", Arrival::AscThenDupAnti),
+        (1100 + rng.below(400), "radix", Arrival::ShuffleDup),
+        (1024, "radix", Arrival::Anti),
+        (1026 + rng.below(8), "legacy", Arrival::Anti),
+        (2, "radix", Arrival::Anti),
+        (3, "legacy", Arrival::Anti),
+        (6, "radix", Arrival::AscThenDupAnti),
+        (12, "radix", Arrival::ShuffleDup),
+        (40, "legacy", Arrival::ShuffleDup),
+        (200, "radix", Arrival::Anti),
+        (9, "radix", Arrival::Canon),
+    ];
+    if tier == Tier::Thorough {
+        for k in 0..40u64 {
+            let total = match k % 5 {
+                0 => 1025 + rng.below(6),
+                1 => 1030 + rng.below(470),
+                2 => 1020 + rng.below(5),
+                3 => 2 + rng.below(60),
+                _ => 1050 + rng.below(100),
+            };
+            let arr = [Arrival::Anti, Arrival::AscThenDupAnti, Arrival::ShuffleDup][(k % 3) as usize];
+            plan.push((total, if k % 7 == 3 { "legacy" } else { "radix" }, arr));
+        }
+    }
+    for (i, (total, kind, arr)) in plan.into_iter().enumerate() {
+        out.push(gen_adversarial(rng, &mut ground, total, kind, arr, lens_big[i % 4]));
+    }
+    out
 }
 
 fn gen_tick(rng: &mut Rng, tier: Tier) -> Vec<String> {
     let n = if tier == Tier::Thorough { 1200 } else { 150 };
-    let mut out = Vec::new();
+    // adversarial scheduler keys first: they are what the widened search needs to reach quickly
+    let mut adv_rng = rng.fork();
+    let mut out = gen_adversarial_set(&mut adv_rng, tier);
     for case in 0..n {
-        let big = case % 50 == 7; // a batch above the 1024-entry small-sort threshold
+        let big = tier == Tier::Thorough && case % 100 == 7; // a plain batch above the 1024-entry small-sort threshold
         let mut st = gen_state(rng, 5, 4, case % 2 == 0);
         let wids: Vec<u64> = st.warps.keys().copied().collect();
-        let ncand = if big { 1030 + rng.below(40) } else { rng.range(0, 7) };
+        let medium = !big && case % 25 == 3; // 20..60 random programs: many conflicts, long blocker lists
+        let wide = !big && case % 50 == 11; // 100..400 candidates, mostly independent
+        let ncand = if big { 1030 + rng.below(40) } else if medium { rng.range(20, 60) } else if wide { rng.range(100, 400) } else { rng.range(0, 7) };
         let mut cands: Vec<(char, u64, u64)> = Vec::new();
         for j in 0..ncand {
             let wid = if big { 0xA1 } else { *rng.pick(&wids) };
             let scope = 0x1000 + j;
-            let prog = if big && j > 6 {
+            let prog = if (big && j > 6) || (wide && j > 12) {
                 // trivial, pairwise independent: each writes its own fresh node
                 format!("P {} 1 E UN {} {} {}", interp::fp_text(&[], &[0x2000 + j], &[], &[], &[], &[]), sid(wid), sid(0x2000 + j), sid(0x11))
             } else {
